@@ -8,6 +8,8 @@
   what WINDOW_UPDATE increments were emitted.
 -/
 import H2.Model.Stream
+import H2.Proofs.InWin
+import H2.Proofs.History
 
 namespace H2.C05
 open H2 H2.Gen
@@ -148,6 +150,43 @@ theorem C05_stall_after_shrink :
     (runG (init 100) [.consumed 49, .processed 49, .setting 40]).map
       (fun g => (g.outstanding, g.w.max_window_size, g.w.current_window_size)) = some (0, 40, -9) := by
   decide +kernel
+
+
+/-! ### the connection's window, along every history of the whole connection -/
+
+open H2.Conn in
+theorem C05_calls_keep_conn_window : CallsKeep WI where
+  initiate := fun c h => pw_apiInitiate c h
+  upgrade := fun hdr c h => pw_apiUpgrade hdr c h
+  sendHeaders := fun sid hs es pw pd pe c h => pw_apiSendHeaders sid hs es pw pd pe c h
+  pushStream := fun sid p hs c h => pw_apiPushStream sid p hs c h
+  sendData := fun sid d es pad c h => pw_apiSendData sid d es pad c h
+  endStream := fun sid c h => pw_apiEndStream sid c h
+  incrementWindow := fun i sid c h => pw_apiIncrementWindow i sid c h
+  ping := fun d c h => pw_apiPing d c h
+  resetStream := fun sid code c h => pw_apiResetStream sid code c h
+  closeConnection := fun code extra last c h => pw_apiCloseConnection code extra last c h
+  updateSettings := fun items c h => pw_apiUpdateSettings items c h
+  altsvc := fun f o sid c h => pw_apiAltsvc f o sid c h
+  prioritize := fun sid w d e c h => pw_apiPrioritize sid w d e c h
+  ackData := fun size sid c h => pw_apiAckData size sid c h
+  dataToSend := fun n c h => pw_apiDataToSend n c h
+  clearOut := fun c h => pw_apiClearOut c h
+  localWindow := fun sid c h => pw_apiLocalWindow sid c h
+  remoteWindow := fun sid c h => pw_apiRemoteWindow sid c h
+  nextStreamId := fun c h => pw_apiNextStreamId c h
+  openOut := fun c h => pw_apiOpenOut c h
+  openIn := fun c h => pw_apiOpenIn c h
+
+/-- **the connection-level window never over-credits, in every reachable state** — with nothing assumed of the
+    application (it may acknowledge too much, too little, or raise the window by hand): the window advertised to the
+    peer never exceeds its maximum, and the maximum never exceeds 2^31-1.  The connection's window manager is only
+    ever handed to `window_consumed` (with the length of a parsed DATA frame), `process_bytes` and `window_opened`, and
+    each keeps the two inequalities whatever its argument -/
+theorem C05_conn_window_every_history (cfg : Config) (c : Conn) (h : C29.Reachable cfg c) :
+    c.inWM.current_window_size ≤ c.inWM.max_window_size ∧ c.inWM.max_window_size ≤ 2147483647 := by
+  refine every_history C05_calls_keep_conn_window receiveData_wi (fun _ _ h => h) cfg ?_ c h
+  cases hc : cfg.client <;> simp [WI, WMI, Conn.init, hc, client_init_in_window, server_init_in_window]
 
 /-- non-vacuity: a non-trivial history satisfying the hypotheses of the theorems -/
 example : (runG (init 65535) [.consumed 40000, .processed 30000, .processed 10000]).map
